@@ -15,6 +15,7 @@ import (
 
 	"github.com/gopacket/gopacket/layers"
 	"github.com/scionproto/scion/pkg/addr"
+	"github.com/scionproto/scion/pkg/stun"
 	"github.com/scionproto/scion/private/topology"
 	underlayconn "github.com/scionproto/scion/private/underlay/conn"
 	"github.com/scionproto/scion/router"
@@ -211,6 +212,7 @@ func scenariosC14() []scen {
 				scen{name: "5slow-burst", batch: b, nosib: true, ext3: [][]string{{"badmac"}, {"badmac"}, {"badmac"}, {"badmac"}, {"badmac"}}, early: early},
 				scen{name: "5fwd-burst", batch: b, nosib: true, ext3: [][]string{{"fwd"}, {"fwd"}, {"fwd"}, {"fwd"}, {"fwd"}}, bfd: 1, early: early},
 				scen{name: "slow-declines", batch: b, nosib: true, ext3: [][]string{{"scmperr"}, {"badmac"}, {"scmperr"}}, early: early},
+				scen{name: "stun-burst", batch: b, nosib: true, internal: [][]string{{"stun"}, {"stun"}, {"stun"}, {"stun"}, {"stun"}}, ext3: [][]string{{"fwd"}}, early: early},
 				scen{name: "bfd-burst", batch: b, nosib: true, ext3: [][]string{{"fwd"}}, bfd: 3, early: early},
 				scen{name: "4garbage+host-burst", batch: b, nosib: true, ext3: [][]string{{"garbage"}, {"garbage"}, {"badmac"}, {"fwd"}}, internal: [][]string{{"stun"}, {"host"}, {"stun"}}, early: early},
 			)
@@ -249,11 +251,8 @@ func packetKinds(cfg *rtr.Cfg) map[string]rxPkt {
 	sib := netip.MustParseAddrPort(rtr.SiblingAddr(1))
 	host := netip.MustParseAddrPort("10.0.0.100:31000")
 	fwd := find(rtr.FromExt(3), 2, false)
-	stun := make([]byte, 20) // STUN binding request: type 0x0001, length 0, magic cookie, transaction id
-	stun[1], stun[4], stun[5], stun[6], stun[7] = 0x01, 0x21, 0x12, 0xa4, 0x42
-	for i := 8; i < 20; i++ {
-		stun[i] = byte(i)
-	}
+	// a well-formed STUN binding request (header + FINGERPRINT): the internal-link processor answers it
+	stunReq := stun.Request(stun.TxID{1, 2, 3, 4, 5, 6, 7, 8, 9, 10, 11, 12})
 	kindsCache = map[string]rxPkt{
 		"fwd":     {ser(fwd, nil), ext},
 		"badmac":  {ser(fwd, func(p *rtr.Pkt) { p.HopRef(fwd.V[0].Hop).Mac[3] ^= 0x40 }), ext},
@@ -263,7 +262,7 @@ func packetKinds(cfg *rtr.Cfg) map[string]rxPkt {
 		"tosib":   {ser(find(rtr.FromExt(3), 12, false), nil), ext},
 		"fromsib": {ser(find(rtr.FromSibling(13), 2, false), nil), sib},
 		"host":    {ser(find(rtr.FromHost, 2, false), nil), host},
-		"stun":    {stun, host},
+		"stun":    {stunReq, host},
 	}
 	return kindsCache
 }
